@@ -61,7 +61,8 @@ def source_of(page):
             out += d + ["add_test(NAME %s %s)" % (name, " ".join(e["args"]))]
         elif k in ("test", "section"):
             cmd = "ct_add_test" if k == "test" else "ct_add_section"
-            out += d + ["%s(NAME %s%s)" % (cmd, name, " EXPECTFAIL" if e["args"] else ""), "function(${%s})" % name, "endfunction()"]
+            impl = "macro" if e.get("value") == "macro" else "function"      # the body of a test may be a macro
+            out += d + ["%s(NAME %s%s)" % (cmd, name, " EXPECTFAIL" if e["args"] else ""), "%s(${%s})" % (impl, name), "end%s()" % impl]
         elif k == "class":
             out += d + ["cpp_class(%s)" % " ".join([name] + list(e["bases"]))]
             for m in e["ctors"]:
